@@ -6,7 +6,6 @@ from __future__ import annotations
 import io
 import os
 
-LEVEL = "proof"
 EXPLANATION = (
     "Deductive part: every codec primitive (round trip, exact consumption, canonical size, for all values) and the transition codec over primitive contracts. "
     "Stand-in: re-encoding of every zone of both real .nzd files must reproduce the reference compiler's bytes."
@@ -18,6 +17,15 @@ def _files() -> list[str]:
     from pyvc import loader
 
     return [os.path.join(loader.REPO, "pyoda_time", "time_zones", "Tzdb.nzd"), os.path.join(loader.REPO, "tests", "test_data", "Tzdb2013bFromNodaTime1.1.nzd")]
+
+
+def _varint(n: int) -> bytes:
+    out = bytearray()
+    while n > 0x7F:
+        out.append(0x80 | (n & 0x7F))
+        n >>= 7
+    out.append(n)
+    return bytes(out)
 
 
 def run(tier: str, seed: int) -> dict:
@@ -59,7 +67,60 @@ def run(tier: str, seed: int) -> dict:
             if got != raw:
                 k = next((i for i in range(min(len(got), len(raw))) if got[i] != raw[i]), min(len(got), len(raw)))
                 violations.append({"name": f"C14.reencode {os.path.basename(path)}:{zid}", "kind": "standin", "detail": f"re-encoded zone differs from the file at byte {k}: {len(got)} bytes written, {len(raw)} in the file", "contract": "standin", "inputs": {"file": path, "zone": zid}, "replay": {"confirmed": True}})
+    # strings and dictionaries (not under deductive contract): every string over a small alphabet covering the 1/2/3/4-byte
+    # UTF-8 classes up to a length bound, long strings around the 1/2-byte length prefix boundary, with and without a pool
+    import itertools
+
+    alphabet = ["a", "\x00", "\x7f", "\x80", "\u00e9", "\u07ff", "\u0800", "\u20ac", "\uffff", "\U00010000", "\U0001f600"]
+    maxlen = 3 if tier == "thorough" else 2
+    corpus = [""] + ["".join(t) for k in range(1, maxlen + 1) for t in itertools.product(alphabet, repeat=k)]
+    corpus += [c * k for c in ("a", "\u00e9", "\u20ac", "\U0001f600") for k in (31, 32, 42, 43, 63, 64, 127, 128, 129, 5461, 5462, 16383, 16384)]
+    sn = sbad = 0
+
+    def rt(strings, pooled):
+        out = io.BytesIO()
+        pool_w = [] if pooled else None
+        w = _DateTimeZoneWriter._ctor(out, pool_w)
+        for x in strings:
+            w.write_string(x)
+        raw = out.getvalue()
+        r = _DateTimeZoneReader._ctor(io.BytesIO(raw), list(pool_w) if pooled else None)
+        back = [r.read_string() for _ in strings]
+        return back, r.has_more_data, raw
+
+    for pooled in (False, True):
+        for i in range(0, len(corpus), 7):
+            chunk = corpus[i : i + 7]
+            sn += len(chunk)
+            try:
+                back, more, raw = rt(chunk, pooled)
+                ok = back == chunk and not more
+                if ok and not pooled:
+                    # documented encoding: varint byte length then the UTF-8 bytes
+                    exp = b"".join(_varint(len(x.encode())) + x.encode() for x in chunk)
+                    ok = raw == exp
+            except Exception as e:  # noqa: BLE001
+                ok, back = False, f"{type(e).__name__}: {e}"
+            if not ok:
+                sbad += 1
+                if sbad <= 3:
+                    violations.append({"name": f"C14.string {'pooled' if pooled else 'inline'}", "kind": "standin", "detail": f"strings {chunk!r:.120} read back as {back!r:.120}", "contract": "standin", "inputs": {"strings": chunk, "pooled": pooled}, "replay": {"confirmed": True}})
+    dn = 0
+    for k in range(0, 40):
+        d = {corpus[(k * 13 + j * 7) % len(corpus)] + str(j): corpus[(k * 5 + j * 11) % len(corpus)] for j in range(k % 6)}
+        dn += 1
+        try:
+            out = io.BytesIO()
+            _DateTimeZoneWriter._ctor(out, None).write_dictionary(d)
+            r = _DateTimeZoneReader._ctor(io.BytesIO(out.getvalue()), None)
+            back = r.read_dictionary()
+            ok = back == d and list(back.items()) == list(d.items()) and not r.has_more_data
+        except Exception as e:  # noqa: BLE001
+            ok, back = False, f"{type(e).__name__}: {e}"
+        if not ok:
+            violations.append({"name": "C14.dictionary", "kind": "standin", "detail": f"dictionary {d!r:.120} read back as {back!r:.120}", "contract": "standin", "inputs": {"dictionary": d}, "replay": {"confirmed": True}})
+            break
     return {
-        "bounded": [{"name": "re-encode every zone of both real database files", "bound": f"all {n} zones ({rule_based} with a recurring tail) of Tzdb.nzd and Tzdb2013bFromNodaTime1.1.nzd", "evaluations": n, "distinct_nontrivial": rule_based, "rule": "one case per zone id; non-trivial = has a rule-based tail", "exhaustive": True, "failures": len(violations)}],
+        "bounded": [{"name": "inline/pooled strings and dictionaries", "bound": f"all strings up to length {maxlen} over an 11-character alphabet spanning the UTF-8 length classes, plus long strings at the varint length boundaries; 40 dictionaries", "evaluations": sn + dn, "distinct_nontrivial": sn + dn, "rule": "one case per (string, pool mode) and per dictionary", "exhaustive": False}, {"name": "re-encode every zone of both real database files", "bound": f"all {n} zones ({rule_based} with a recurring tail) of Tzdb.nzd and Tzdb2013bFromNodaTime1.1.nzd", "evaluations": n, "distinct_nontrivial": rule_based, "rule": "one case per zone id; non-trivial = has a rule-based tail", "exhaustive": True, "failures": len(violations)}],
         "violations": violations[:8],
     }
